@@ -102,19 +102,39 @@ def check_C02(tier, only):
 
 
 def replay(prop, path):
-    """re-run a recorded counterexample natively (E-S: symtrace f64 mode)"""
+    """re-run a recorded counterexample against the natively compiled library (E-S: symtrace f64 mode; E-M: the
+    native replay binary; E-K: re-run the failing Kani harness)"""
     r = json.load(open(path))
     rp = r['replay']
+    print(r.get('what', ''))
     if 'job' in rp:
         es.build_symtrace()
-        nat = es.native(rp['job'], rp['x'])
+        job = rp['job']
+        if job.get('job') == 'twowit' and rp.get('native', {}).get('direction'):
+            job = {'job': 'fd', 'model': job['model'], 'seed': [rp['native']['direction']], 'h': 1e-6}
+        nat = es.native(job, rp['x'])
         print(json.dumps(nat, indent=1))
         for nr in nat['rels']:
-            if nr['name'].replace(' ', '_') == rp['relation']:
-                want = nr['a'] * rp['x'][2] ** rp['expected_degree']
+            nm = nr['name'].split(':', 1)[1] if job['job'] == 'fd' else nr['name']
+            if nm.replace(' ', '_') == rp['relation']:
+                want = nr['a'] * rp['x'][2] ** rp.get('expected_degree', 0)
                 dev = abs(nr['b'] - want) / max(abs(want), abs(nr['b']), 1e-300)
-                print('relation %s: a=%r b=%r expected b = lam^%d a; rel.dev = %.3g' % (rp['relation'], nr['a'], nr['b'], rp['expected_degree'], dev))
+                print('relation %s: a=%r b=%r expected b = lam^%d a; rel.dev = %.3g' % (rp['relation'], nr['a'], nr['b'], rp.get('expected_degree', 0), dev))
                 return 1 if dev > 1e-9 else 0
+        return 2
+    if 'native_cmd' in rp:
+        build_native()
+        p = sh(rp['native_cmd'], timeout=1200)
+        print(p.stdout.strip())
+        print('recorded:', json.dumps(rp.get('native_result', rp.get('native'))))
+        print('(compare the two lines: the replay reproduces the violation iff the current output still shows the deviation)')
+        return 0 if p.returncode == 0 else 2
+    if 'harness' in rp:
+        import ek
+        res = ek.run_harnesses([(rp['where'], rp['harness'])], timeout=3000)
+        rr = res[rp['harness']]
+        print(rp['harness'], rr['status'], rr['failed'][:2])
+        return 1 if rr['failed'] else 0
     return 2
 
 
